@@ -390,7 +390,7 @@ class C10(Prop):
 
     def strategy(self, tier):
         cfg = gen_ir.Cfg(max_defs=4, max_children=3, max_width=1, max_libs=2, unnamed=True,
-                         top="maybe", alphabet=NAMES, data=False)
+                         top="maybe", alphabet=NAMES, data=False, scale_many=6)
         from hypothesis import strategies as st
         from vf import gen_verilog
         from vf.props.c05 import NAMES as EDIF_NAMES
